@@ -17,21 +17,21 @@ import (
 
 // blockingAccepted: frozen table (function, channel expression) -> reason.
 var blockingAccepted = map[string]string{
-	"(*candidate).startElection$1|send|λ$0":           "vote reply channel has capacity len(Latest.Nodes) >= number of request goroutines + self vote",
-	"(*leader).tryTransfer$1|send|λ$0":                "transfer reply channel has capacity 1 and exactly one sender per channel",
-	"(*Raft).onTakeSnapshot$1|send|Raft.snapTakenCh":  "snapTakenCh has capacity 1 and one snapshot goroutine per channel; Raft.release waits for it",
-	"doTakeSnapshot|recv|fsmSnapReq.task.done":        "the FSM goroutine answers every fsmSnapReq (C15.4); it keeps running until Serve closes fsm.ch, which happens after Raft.release has waited for this goroutine",
-	"(*safeTimer).stop|recv|safeTimer.C":              "only when Stop() reported that the timer already fired and its tick was not consumed yet (active): the tick is in the channel",
-	"(*stateMachine).runLoop|send|local:t.err":        "fsmRestoredCh has capacity 5; at most one restore request is outstanding per install/Serve",
-	"(*stateMachine).runLoop|recv|stateMachine.ch":    "ends when Serve closes fsm.ch (deferred close, before wg.Wait)",
-	"(*replication).replicate$3$1|send|local:drained": "capacity 1, single sender",
-	"(*replication).replicate$3|recv|local:drained":   "the drain goroutine always sends once (its reads fail after the connection is closed)",
-	"(*replication).replicate|recv|local:resultCh":    "the pipeline writer closes resultCh on exit",
-	"(*replication).replicate$2|recv|local:resultCh":  "range over resultCh, closed by the pipeline writer",
-	"(*server).executeTask|recv|invoke:Done($1)":      "the raft goroutine answers every task it accepted (C15.4)",
-	"(*Raft).runBatch|send|Raft.newEntryCh":           "only after <-r.close: Serve's epilogue is draining newEntryCh at that time",
-	"(*Raft).lastApplied|recv|new:task#1.done":        "answered by the FSM goroutine (runLoop lastApplied case)",
-	"(*Raft).lastApplied|send|Raft.fsm.ch":            "raft goroutine; fsm.ch is drained by the FSM goroutine until Serve closes it",
+	"(*candidate).startElection$1|send|λ$0":                                           "vote reply channel has capacity len(Latest.Nodes) >= number of request goroutines + self vote",
+	"(*leader).tryTransfer$1|send|λ$0":                                                "transfer reply channel has capacity 1 and exactly one sender per channel",
+	"(*Raft).onTakeSnapshot$1|send|Raft.snapTakenCh":                                  "snapTakenCh has capacity 1 and one snapshot goroutine per channel; Raft.release waits for it",
+	"doTakeSnapshot|recv|fsmSnapReq.task.done":                                        "the FSM goroutine answers every fsmSnapReq (C15.4); it keeps running until Serve closes fsm.ch, which happens after Raft.release has waited for this goroutine",
+	"(*safeTimer).stop|recv|safeTimer.C":                                              "only when Stop() reported that the timer already fired and its tick was not consumed yet (active): the tick is in the channel",
+	"(*stateMachine).runLoop|send|assert[fsmRestoreReq](recv(stateMachine.ch)#0).err": "fsmRestoredCh has capacity 5; at most one restore request is outstanding per install/Serve",
+	"(*stateMachine).runLoop|recv|stateMachine.ch":                                    "ends when Serve closes fsm.ch (deferred close, before wg.Wait)",
+	"(*replication).replicate$3$1|send|local:drained":                                 "capacity 1, single sender",
+	"(*replication).replicate$3|recv|local:drained":                                   "the drain goroutine always sends once (its reads fail after the connection is closed)",
+	"(*replication).replicate|recv|local:resultCh":                                    "the pipeline writer closes resultCh on exit",
+	"(*replication).replicate$2|recv|local:resultCh":                                  "range over resultCh, closed by the pipeline writer",
+	"(*server).executeTask|recv|invoke:Done($1)":                                      "the raft goroutine answers every task it accepted (C15.4)",
+	"(*Raft).runBatch|send|Raft.newEntryCh":                                           "only after <-r.close: Serve's epilogue is draining newEntryCh at that time",
+	"(*Raft).lastApplied|recv|new:task#1.done":                                        "answered by the FSM goroutine (runLoop lastApplied case)",
+	"(*Raft).lastApplied|send|Raft.fsm.ch":                                            "raft goroutine; fsm.ch is drained by the FSM goroutine until Serve closes it",
 }
 
 func (h H) blockingOps(rule string) {
